@@ -1,6 +1,8 @@
 ----------------------------- MODULE C02_Trace -----------------------------
 (* I->S for C02.                                                            *)
-(*  [k|->"loc", text, parent, viaparser, viarecord, viastruct, printed]     *)
+(*  [k|->"loc", text, parent, viaparser, viarecord, viastruct, printed,      *)
+(*   printed2]   viastruct is evaluated AFTER the first write, printed2 is   *)
+(*   a second write of the same structure                                   *)
 (*     text: a location in INSDC syntax (written by the harness from a      *)
 (*     random expression; re-recognised here), parent: the parent sequence, *)
 (*     viaparser / viarecord / viastruct: Feature.GetSequence() after       *)
@@ -22,6 +24,7 @@ Judge(e) ==
          IF e.viaparser # want THEN "sequence of the parsed location differs from the INSDC reading (got " \o e.viaparser \o ", want " \o want \o ")"
          ELSE IF e.viarecord # want THEN "sequence of the feature parsed from a GenBank record differs from the INSDC reading"
          ELSE IF e.viastruct # want THEN "sequence of the assembled structure differs from the INSDC reading (got " \o e.viastruct \o ", want " \o want \o ")"
+         ELSE IF e.printed2 # e.printed THEN "writing the same location to text twice gives two different texts (" \o e.printed \o " then " \o e.printed2 \o "): the first write altered the structure"
          ELSE IF strict.ok THEN
               (IF InRange(strict.ast, Len(e.parent)) /\ BasesOf(strict.ast, e.parent) = want /\ Leaves(strict.ast) = Leaves(r.ast)
                THEN "ok" ELSE "the location written back to text denotes different bases or different partial ends: " \o e.printed)
